@@ -68,6 +68,7 @@ func init() {
 			// dig): what later Invokes inject must still obey the rule
 			k.NoFaults, k.PFault, k.PPanic = false, 6, 65
 			k.PSide = 8
+			k.PSideKey = 4
 			return GenCase(t, scale(k, thorough))
 		},
 		Check: func(c *Case, st *Stats) *Failure {
